@@ -1,27 +1,73 @@
-"""Reader for the hook trace (H2) and the offline SRM checker (C23 oracle)."""
+"""Reader for the hook trace (H2), the offline SRM checker (C23 oracle) and the EncDec segment
+trace checker (C24, H4).
+
+SRM checker: a sequential model of EbSystemResourceManager.c replayed over the H3 events.  The events are
+emitted inside the critical sections the SRM itself uses, `seq` comes from one process-wide atomic counter,
+so sorting by `seq` gives, per lock, exactly the order in which the critical sections ran.
+
+  empty side : ctor pushes every wrapper to empty_queue.object_queue; svt_release_object pushes FRONT;
+               svt_get_empty_object registers the producer fifo (REGISTER) and pops what ASSIGN gave it.
+  full side  : svt_post_full_object pushes BACK (FIFO); consumers register with every get_full call
+               (blocking or not; the non-blocking variant registers twice when it finds an object).
+  assignation: pops (process, object) pairs while both circular buffers are non-empty.
+
+Two generations of hooks are understood: with kinds 15 (POOL_RETURN) / 16 (REGISTER) present ("v2") the
+real pool return and the real process queue are observed; without them the checker falls back to the value
+predicted by the RELEASE record and checks wake-ups only at quiescence.
+"""
 import struct
 import collections
 
 EV = {
     1: "SRM_CTOR", 2: "SRM_WRAPPER", 3: "SRM_FIFO", 4: "GET_EMPTY_CALL", 5: "GET_EMPTY_RET", 6: "POST_FULL",
     7: "ASSIGN", 8: "GET_FULL_CALL", 9: "GET_FULL_RET", 10: "RELEASE", 11: "INC_LIVE", 12: "SHUTDOWN",
-    13: "SRM_INVARIANT", 14: "REL_ENABLE", 32: "SEG_INIT", 33: "SEG_START", 34: "SEG_SB", 35: "SEG_DONE",
+    13: "SRM_INVARIANT", 14: "REL_ENABLE", 15: "POOL_RETURN", 16: "REGISTER",
+    32: "SEG_INIT", 33: "SEG_START", 34: "SEG_SB", 35: "SEG_DONE",
 }
 K = {v: k for k, v in EV.items()}
 RELEASED = 0xFFFFFFFF  # EB_ObjectWrapperReleasedValue is ~0u
-FIFO_SHUTDOWN = 0x80002034
+FIFO_SHUTDOWN = 0x80002034  # EB_NoErrorFifoShutdown (int32, sign-extended in the record: compare the low 32 bits)
+REC = struct.Struct("<7Q")
 
 
 def read(path):
     """-> list of (seq, tid, kind, a, b, c, d) sorted by seq"""
-    recs = []
     with open(path, "rb") as f:
         data = f.read()
-    n = len(data) // 56
-    for i in range(n):
-        recs.append(struct.unpack_from("<7Q", data, i * 56))
-    recs.sort(key=lambda r: r[0])
+    n = len(data) // REC.size
+    recs = list(REC.iter_unpack(data[:n * REC.size]))
+    recs.sort()
     return recs
+
+
+class _ProcQ:
+    """Exact replica of the process circular buffer (push_front by svt_release_process, pop_front by assignation)."""
+    __slots__ = ("arr", "head", "tail", "n", "count", "seen")
+
+    def __init__(self, n):
+        self.n = max(1, n)
+        self.arr = [None] * self.n
+        self.head = 0
+        self.tail = 0
+        self.count = 0
+        self.seen = False  # a REGISTER was observed (v2 hooks): the model is meaningful
+
+    def push_front(self, f):
+        self.head = self.n - 1 if self.head == 0 else self.head - 1
+        old = self.arr[self.head]
+        self.arr[self.head] = f
+        self.count += 1
+        return old
+
+    def pop_front(self):
+        f = self.arr[self.head]
+        self.arr[self.head] = None
+        self.head = 0 if self.head == self.n - 1 else self.head + 1
+        self.count -= 1
+        return f
+
+    def empty(self):
+        return self.head == self.tail and self.arr[self.head] is None
 
 
 class SrmModel:
@@ -29,58 +75,115 @@ class SrmModel:
 
     def __init__(self, rid, nobj, nprod, ncons, index):
         self.rid, self.nobj, self.nprod, self.ncons, self.index = rid, nobj, nprod, ncons, index
-        self.wrappers = {}  # ptr -> state 'pool'|'held-empty'|'queued'|'held-full'
+        self.wrappers = {}  # ptr -> 'pool'|'held-empty'|'queued'|'held-full'
         self.live = {}  # ptr -> shadow live count
         self.enabled = {}
         self.fifos = {}  # ptr -> (index, is_consumer)
-        self.posted = collections.deque()  # tickets in posting order (wrapper ptrs with ticket ids)
+        self.pool_free = set()  # in the pool, not yet assigned to a producer fifo (empty object_queue)
+        self.posted = collections.deque()  # (ticket, wrapper) posted, not yet assigned, in posting order
         self.assigned = collections.defaultdict(collections.deque)  # consumer fifo -> deque of (ticket, wrapper)
         self.empty_assigned = collections.defaultdict(collections.deque)  # producer fifo -> deque of wrappers
+        self.procq = {0: _ProcQ(nprod), 1: _ProcQ(ncons)}
         self.ticket = 0
         self.ticket_of = {}
         self.last_ticket_seen = {}
-        self.blocked = {}  # fifo -> ('empty'|'full', seq) while a blocking call is outstanding
+        self.blocked = {}  # (fifo, tid) -> ('empty'|'full', seq) while a blocking call is outstanding
         self.shutdown = False
         self.events = 0
         self.posts = 0
         self.releases = 0
+        self.returns = 0
+        self.delivered = 0
+        self.reregistrations = 0
+        self.tids = {}  # tid -> local ordinal (first appearance) for canonical interleaving hashes
+
+    def ltid(self, tid):
+        t = self.tids.get(tid)
+        if t is None:
+            t = self.tids[tid] = len(self.tids)
+        return t
 
 
 def check_srm(recs, strict_quiescent=True):
-    """Run the C23 oracle over a trace. Returns (violations, stats) where violations is a list of
-    (kind, message) and stats has per-resource counters and the hand-off order hash input."""
-    res = {}  # rid -> SrmModel (current incarnation)
+    """Run the C23 oracle over a trace. Returns (violations, info): violations is a list of (kind, message);
+    info has per-resource counters ('resources'), 'event_counts', the hand-off order 'order' (list of
+    (resource index, op, actor) usable for interleaving hashes) and the same split 'order_by_resource'.
+    strict_quiescent: the trace ends at quiescence after a clean teardown, so a consumer still blocked after
+    svt_shutdown_process is a violation."""
+    res = {}  # rid -> SrmModel (current incarnation at that address)
+    models = []  # every incarnation, in construction order
     by_fifo = {}
-    by_queue_wrapper = {}
     viol = []
-    order = []  # hand-off order for interleaving hashes
-    nres = 0
-    pending_nb = {}  # tid -> fifo for non-blocking get in flight
+    order = []
     stats = collections.Counter()
+    v2 = any(r[2] == 16 for r in recs)
+    pend = {}  # tid -> (model, wrapper, should_return, newc, before, seq): RELEASE waiting for its POOL_RETURN
 
     def v(kind, msg):
         if len(viol) < 50:
             viol.append((kind, msg))
+
+    def check_inv(m, side, seq):
+        """objects and waiting processes never coexist once a critical section of that queue is over"""
+        q = m.procq[side]
+        if not q.seen:
+            return
+        objs = len(m.posted) if side else len(m.pool_free)
+        if objs and not q.empty():
+            v("missed-assignation", "resource #%d: %s queue left with %d object(s) and a registered process after a "
+                                    "critical section (before seq %d)" % (m.index, "full" if side else "empty", objs, seq))
+            # resynchronise so that one defect is reported once
+            q.seen = False
+
+    def resolve_release(p, actual):
+        """p: a RELEASE whose live_count update is already applied; actual: the wrapper really went back to the pool"""
+        m, w, should_return, newc, before, seq = p
+        if actual:
+            st = m.wrappers.get(w)
+            if st == "pool":
+                v("double-release", "resource #%d: object returned to the pool twice (seq %d)" % (m.index, seq))
+            if st == "queued":
+                v("release-while-queued", "resource #%d: object returned to the pool while still queued (seq %d)"
+                  % (m.index, seq))
+            if not should_return:
+                v("release-rule", "resource #%d: object returned to the pool before its last reference was released "
+                                  "(live_count %d->%d, enable=%s, seq %d)"
+                  % (m.index, before, newc, m.enabled.get(w), seq))
+            m.wrappers[w] = "pool"
+            m.pool_free.add(w)
+            m.live[w] = RELEASED
+            m.returns += 1
+        elif should_return:
+            v("release-rule", "resource #%d: last reference released but the object was kept out of the pool "
+                              "(live_count %d->%d, enable=%s, seq %d)"
+              % (m.index, before, newc, m.enabled.get(w), seq))
 
     for (seq, tid, kind, a, b, c, d) in recs:
         name = EV.get(kind)
         if name is None or kind >= 32:
             continue
         stats[name] += 1
+        p = pend.pop(tid, None)
+        if p is not None:
+            if name == "POOL_RETURN" and p[0].rid == a and p[1] == b:
+                resolve_release(p, True)
+                continue
+            resolve_release(p, False)
         if name == "SRM_CTOR":
-            m = SrmModel(a, b, c, d, nres)
-            nres += 1
-            # a new incarnation may reuse the address of a destroyed one
+            m = SrmModel(a, b, c, d, len(models))
+            models.append(m)
             old = res.get(a)
             if old:
                 for f in old.fifos:
-                    by_fifo.pop(f, None)
+                    if by_fifo.get(f) is old:
+                        del by_fifo[f]
             res[a] = m
             continue
         if name == "SRM_WRAPPER":
             m = res.get(a)
             if m:
                 m.wrappers[b] = "pool"
+                m.pool_free.add(b)
                 m.live[b] = RELEASED
                 m.enabled[b] = True
             continue
@@ -92,8 +195,11 @@ def check_srm(recs, strict_quiescent=True):
             continue
         if name in ("GET_EMPTY_CALL", "GET_EMPTY_RET", "GET_FULL_CALL", "GET_FULL_RET"):
             m = by_fifo.get(a)
-        elif name == "ASSIGN":
+        elif name in ("ASSIGN", "REGISTER"):
             m = by_fifo.get(b)
+        elif name == "SRM_INVARIANT":
+            v("queue-overflow", "an object queue holds %d entries, capacity %d (seq %d)" % (b, c, seq))
+            continue
         else:
             m = res.get(a)
         if m is None:
@@ -102,15 +208,30 @@ def check_srm(recs, strict_quiescent=True):
         m.events += 1
         if name == "GET_EMPTY_CALL":
             m.blocked[(a, tid)] = ("empty", seq)
+        elif name == "REGISTER":
+            side = m.fifos.get(b, (0, 0))[1]
+            check_inv(m, side, seq)
+            q = m.procq[side]
+            q.seen = True
+            old = q.push_front(b)
+            if old is not None:
+                if old != b:
+                    v("process-queue-overflow",
+                      "resource #%d: %s process queue (capacity %d): the registration of fifo %d was overwritten by "
+                      "fifo %d (seq %d)" % (m.index, "full" if side else "empty", q.n, m.fifos.get(old, (-1, 0))[0],
+                                            m.fifos.get(b, (-1, 0))[0], seq))
+                else:
+                    m.reregistrations += 1
         elif name == "GET_EMPTY_RET":
             m.blocked.pop((a, tid), None)
             w = b
             st = m.wrappers.get(w)
             if st is None:
-                v("unknown-object", "resource #%d: get_empty returned an object that is not in the pool set" % m.index)
+                v("unknown-object", "resource #%d: get_empty returned an object that is not one of the %d constructed "
+                                    "(seq %d)" % (m.index, m.nobj, seq))
                 continue
-            if st in ("held-empty", "held-full", "queued"):
-                v("double-handout", "resource #%d: get_empty handed out object in state %s (seq %d)" % (m.index, st, seq))
+            if st != "pool":
+                v("double-handout", "resource #%d: get_empty handed out an object in state %s (seq %d)" % (m.index, st, seq))
             q = m.empty_assigned[a]
             if not q or q[0] != w:
                 v("empty-assignment-order", "resource #%d: get_empty returned an object that was not the head of this "
@@ -119,27 +240,37 @@ def check_srm(recs, strict_quiescent=True):
                     q.remove(w)
             else:
                 q.popleft()
+            m.pool_free.discard(w)
             m.wrappers[w] = "held-empty"
             m.live[w] = 0
             m.enabled[w] = True
+            order.append((m.index, "E", m.fifos.get(a, (0, 0))[0]))
         elif name == "POST_FULL":
+            check_inv(m, 1, seq)
             w = b
             st = m.wrappers.get(w)
             if st != "held-empty":
-                v("post-of-unheld", "resource #%d: post_full of object in state %s (seq %d)" % (m.index, st, seq))
+                v("post-of-unheld", "resource #%d: post_full of an object in state %s (seq %d)" % (m.index, st, seq))
             m.wrappers[w] = "queued"
             m.ticket += 1
             m.ticket_of[w] = m.ticket
             m.posted.append((m.ticket, w))
             m.posts += 1
-            order.append((m.index, "P", tid))
+            order.append((m.index, "P", m.ltid(tid)))
         elif name == "ASSIGN":
             fifo, w = b, c
-            isc = m.fifos.get(fifo, (0, 0))[1]
+            fi, isc = m.fifos.get(fifo, (0, 0))
+            q = m.procq[isc]
+            if q.seen:
+                f0 = q.pop_front() if not q.empty() else None
+                if f0 != fifo:
+                    v("process-queue-model", "resource #%d: assignation served fifo %d but the head of the process queue "
+                                             "was %s (seq %d)" % (m.index, fi, m.fifos.get(f0, ("none", 0))[0], seq))
+                    q.seen = False
             if isc:
-                # full queue: must be the oldest posted ticket (FIFO), each ticket assigned once
                 if not m.posted:
-                    v("assign-without-post", "resource #%d: assignment of object that was never posted (seq %d)" % (m.index, seq))
+                    v("assign-without-post", "resource #%d: assignment of an object that was not posted (seq %d)" % (m.index, seq))
+                    t = m.ticket_of.get(w, -1)
                 else:
                     t, w0 = m.posted[0]
                     if w0 != w:
@@ -148,23 +279,28 @@ def check_srm(recs, strict_quiescent=True):
                         t = m.ticket_of.get(w, -1)
                     else:
                         m.posted.popleft()
-                    m.assigned[fifo].append((t, w))
-                order.append((m.index, "A", m.fifos.get(fifo, (0, 0))[0]))
+                m.assigned[fifo].append((t, w))
+                order.append((m.index, "A", fi))
             else:
-                # empty queue: object must be in the pool
-                if m.wrappers.get(w) != "pool":
-                    v("pool-assign", "resource #%d: empty-queue assignment of object in state %s (seq %d)"
-                      % (m.index, m.wrappers.get(w), seq))
+                if w not in m.pool_free:
+                    v("pool-assign", "resource #%d: empty-queue assignment of an object in state %s that is not waiting "
+                                     "in the pool (seq %d)" % (m.index, m.wrappers.get(w), seq))
+                m.pool_free.discard(w)
                 m.empty_assigned[fifo].append(w)
         elif name == "GET_FULL_CALL":
             if b:
                 m.blocked[(a, tid)] = ("full", seq)
         elif name == "GET_FULL_RET":
-            m.blocked.pop((a, tid), None)
-            w, err, nb_empty = b, c, d
+            blocking = m.blocked.pop((a, tid), None) is not None
+            w, err, nb_empty = b, c & 0xFFFFFFFF, d
             if w == 0:
-                if err == FIFO_SHUTDOWN and not m.shutdown:
-                    v("shutdown-code-without-shutdown", "resource #%d: consumer got FifoShutdown before shutdown" % m.index)
+                if err == FIFO_SHUTDOWN:
+                    if not m.shutdown:
+                        v("shutdown-code-without-shutdown", "resource #%d: consumer got FifoShutdown before shutdown "
+                                                            "(seq %d)" % (m.index, seq))
+                elif blocking:
+                    v("null-delivery", "resource #%d: blocking get_full returned no object and no shutdown code "
+                                       "(seq %d)" % (m.index, seq))
                 continue
             q = m.assigned[a]
             if not q or q[0][1] != w:
@@ -183,74 +319,92 @@ def check_srm(recs, strict_quiescent=True):
             if m.wrappers.get(w) != "queued":
                 v("double-delivery", "resource #%d: object delivered in state %s (seq %d)" % (m.index, m.wrappers.get(w), seq))
             m.wrappers[w] = "held-full"
+            m.delivered += 1
             order.append((m.index, "G", m.fifos.get(a, (0, 0))[0]))
         elif name == "INC_LIVE":
             w = b
             if m.live.get(w) == RELEASED:
-                # incrementing a released wrapper: it is in the pool; the code wraps around. Record.
+                # incrementing a released wrapper: it is in the pool; the code wraps around
                 stats["inc_live_on_released"] += 1
+                v("inc-live-on-pooled", "resource #%d: inc_live_count on an object that is in the pool (seq %d)" % (m.index, seq))
                 m.live[w] = (RELEASED + c) & 0xFFFFFFFF
             else:
-                m.live[w] = m.live.get(w, 0) + c
+                m.live[w] = (m.live.get(w, 0) + c) & 0xFFFFFFFF
             if d != m.live[w]:
                 v("live-count-shadow", "resource #%d: live_count %d differs from shadow %d (seq %d)" % (m.index, d, m.live[w], seq))
+                m.live[w] = d
         elif name == "REL_ENABLE":
             m.enabled[b] = bool(c)
         elif name == "RELEASE":
-            w, before, returned = b, c, d
+            check_inv(m, 0, seq)
+            w, before, predicted = b, c, d
             m.releases += 1
             sh = m.live.get(w)
             if sh is not None and sh != before:
                 v("live-count-shadow", "resource #%d: live_count before release %d differs from shadow %d (seq %d)"
                   % (m.index, before, sh, seq))
-            st = m.wrappers.get(w)
-            if before == RELEASED:
-                # release of an object that is already in the pool
+            if before == RELEASED or m.wrappers.get(w) == "pool":
                 v("release-of-pooled", "resource #%d: release of an object that is already in the pool (seq %d)" % (m.index, seq))
             newc = 0 if before == 0 else before - 1
             should_return = m.enabled.get(w, True) and newc == 0
-            if bool(returned) != bool(should_return):
-                v("release-rule", "resource #%d: object %s the pool with live_count %d->%d enable=%s (seq %d)"
-                  % (m.index, "returned to" if returned else "kept out of", before, newc, m.enabled.get(w), seq))
-            if returned:
-                if st == "pool":
-                    v("double-release", "resource #%d: object returned to the pool twice (seq %d)" % (m.index, seq))
-                if st == "queued":
-                    v("release-while-queued", "resource #%d: object returned to the pool while still queued (seq %d)" % (m.index, seq))
-                m.wrappers[w] = "pool"
-                m.live[w] = RELEASED
+            m.live[w] = newc
+            p = (m, w, should_return, newc, before, seq)
+            if v2:
+                pend[tid] = p  # resolved by the POOL_RETURN record that follows in the same critical section, if any
             else:
-                m.live[w] = newc
+                resolve_release(p, bool(predicted))
+        elif name == "POOL_RETURN":
+            # not preceded by the RELEASE record of the same thread
+            v("release-rule", "resource #%d: pool return without a release (seq %d)" % (m.index, seq))
         elif name == "SHUTDOWN":
             m.shutdown = True
-        elif name == "SRM_INVARIANT":
-            v("queue-overflow", "resource #%d: object queue holds %d entries, capacity %d" % (m.index, b, c))
-        # conservation: every wrapper is in exactly one state by construction of the dict; check counts
-        if len(m.wrappers) != m.nobj and m.events > 0 and name != "SRM_WRAPPER":
-            v("object-set", "resource #%d: %d objects known, %d constructed" % (m.index, len(m.wrappers), m.nobj))
+            order.append((m.index, "S", 0))
 
-    # quiescence: blocked consumers while their assignment queue is non-empty, and consumers still blocked after shutdown
-    for m in res.values():
+    for p in pend.values():
+        resolve_release(p, False)
+
+    # quiescence
+    for m in models:
+        if len(m.wrappers) != m.nobj:
+            v("object-set", "resource #%d: %d objects known, %d constructed" % (m.index, len(m.wrappers), m.nobj))
+        check_inv(m, 0, 1 << 62)
+        check_inv(m, 1, 1 << 62)
         for (fifo, tid), (what, seq) in m.blocked.items():
+            fi = m.fifos.get(fifo, (0, 0))[0]
             if what == "full":
-                if m.assigned.get(fifo):
-                    v("lost-wakeup", "resource #%d: consumer blocked (since seq %d) while %d object(s) are assigned to it"
-                      % (m.index, seq, len(m.assigned[fifo])))
-                elif m.shutdown and strict_quiescent:
-                    v("shutdown-stuck", "resource #%d: consumer still blocked after shutdown (since seq %d)" % (m.index, seq))
+                if m.shutdown:
+                    if strict_quiescent:
+                        v("shutdown-stuck", "resource #%d: consumer %d still blocked after shutdown (since seq %d)"
+                          % (m.index, fi, seq))
+                elif m.assigned.get(fifo):
+                    v("lost-wakeup", "resource #%d: consumer %d blocked (since seq %d) while %d object(s) are assigned "
+                                     "to it" % (m.index, fi, seq, len(m.assigned[fifo])))
+                elif m.posted:
+                    v("lost-wakeup", "resource #%d: consumer %d blocked (since seq %d) while %d posted object(s) wait "
+                                     "unassigned" % (m.index, fi, seq, len(m.posted)))
             else:
                 if m.empty_assigned.get(fifo):
-                    v("lost-wakeup", "resource #%d: producer blocked (since seq %d) while an empty object is assigned to it"
-                      % (m.index, seq))
+                    v("lost-wakeup-producer", "resource #%d: producer %d blocked (since seq %d) while an empty object is "
+                                              "assigned to it" % (m.index, fi, seq))
+                elif m.pool_free:
+                    v("lost-wakeup-producer", "resource #%d: producer %d blocked (since seq %d) while %d object(s) wait "
+                                              "in the pool" % (m.index, fi, seq, len(m.pool_free)))
+    by_res = collections.defaultdict(list)
+    for o in order:
+        by_res[o[0]].append(o[1:])
     info = {
         "resources": [{"index": m.index, "objects": m.nobj, "producers": m.nprod, "consumers": m.ncons,
-                       "events": m.events, "posts": m.posts, "releases": m.releases,
+                       "events": m.events, "posts": m.posts, "delivered": m.delivered, "releases": m.releases,
+                       "returns": m.returns, "reregistrations": m.reregistrations,
                        "blocked": [(what, m.fifos.get(f, (0, 0))[0], seq) for (f, t), (what, seq) in m.blocked.items()],
                        "pool": sum(1 for s in m.wrappers.values() if s == "pool"),
+                       "undelivered": len(m.posted) + sum(len(q) for q in m.assigned.values()),
                        "shutdown": m.shutdown}
-                      for m in sorted(res.values(), key=lambda x: x.index)],
+                      for m in models],
         "event_counts": dict(stats),
         "order": order,
+        "order_by_resource": dict(by_res),
+        "hooks_v2": v2,
     }
     return viol, info
 
